@@ -302,7 +302,7 @@ func init() {
 	harness.Register(&harness.Prop{
 		ID: "C07", Engine: "E2", Level: "exploration", Gen: genC07, Exec: execC07,
 		Runs:      map[string]int{"quick": 2000, "thorough": 60000},
-		Rule:      "storage-corruption fault injection: per workload (a bundled reference file <= 1 MiB quick / 4 MiB thorough, or a file written by a simulated E1 history) 150 (quick) / 600 (thorough) seeded alterations of the stored bytes are applied one at a time - boundary values (0, 1, 0x7F, all-ones, filesize, filesize+-1, value+-1, the structure's own address) written over 1/2/4/8-byte positions in the first 96 bytes of every metadata structure located by the independent decoder, random 1-8-byte mutations, truncations - and the altered file is opened and everything reachable is read (Walk, Info, Read, ReadStrings, ReadCompound, Attributes+ReadValue, ReadSlice of a centre block, a chunk-iterator pass); oracle: no panic, no process death (address-space limit 4 GiB, hang watchdog 30 s), at most 1e5+64*size ReadAt calls, at most 256 MiB+1100*size bytes allocated; evaluations counts workloads plus altered files; non-trivial = at least one altered file got past the signature check; distinct by (base file identity, size)",
+		Rule:      "storage-corruption fault injection: per workload (a bundled reference file <= 1 MiB quick / 4 MiB thorough, or a file written by a simulated E1 history) 150 (quick) / 600 (thorough) seeded alterations of the stored bytes are applied one at a time - boundary values (0, 1, 0x7F, all-ones, filesize, filesize+-1, value+-1, the structure's own address) written over 1/2/4/8-byte positions in the first 96 bytes of every metadata structure located by the independent decoder, random 1-8-byte mutations, truncations, version-1 B-tree nodes turned into shared-child ladders, and (30% of the reference-file workloads are steered to files with new-style groups) link-graph rewirings of version-2 object headers: a hard link message pointed back at its own group or at the root group, alone or with the group's first link message turned into a soft link of equal size, stored checksum recomputed - and the altered file is opened and everything reachable is read (Walk, Info, Read, ReadStrings, ReadCompound, Attributes+ReadValue, ReadSlice of a centre block, a chunk-iterator pass); oracle: no panic, no process death (address-space limit 4 GiB, hang watchdog 30 s), at most 1e5+64*size ReadAt calls, at most 256 MiB+1100*size bytes allocated; evaluations counts workloads plus altered files; non-trivial = at least one altered file got past the signature check; distinct by (base file identity, size)",
 		Technique: "deterministic simulation with stored-byte fault injection (seeded, decoder-directed) and isolated crash-tolerant workers",
 		Assumptions: []string{"returning an error is always acceptable", "inputs larger than 4 MiB and multi-field corruptions beyond 8 bytes are not explored",
 			"reference files that legitimately declare datasets above 64 MiB are not used as base files"},
